@@ -22,6 +22,7 @@
 (*            independent dense least squares ("lstsq"), zero-weight invariance ("zw"),         *)
 (*            linearity ("lin"), polynomial reproduction ("poly"); the harness measures the     *)
 (*            discrepancy (units of 1e-9 of the data scale), the support class comes from here  *)
+(*   run    : a history of fit calls on knots that cannot be abstracted (coincident knots)       *)
 EXTENDS BSplineFit, Json, IOUtils, SequencesExt
 Input == JsonDeserialize(IOEnv.VERIF_TRACE)
 VARIABLES i, ok, why, tid, pos
@@ -32,13 +33,19 @@ Tol == 1000
 CholExactOK(r, A) == /\ IsCholFactor(UnbandLower(r.L, r.n, r.bw), A, r.n, r.bw) /\ PaddingZero(r.L, r.n, r.bw)
                      /\ Solves(A, r.x, r.b, r.n) /\ VecPaddingZero(r.x, r.n, r.bw)
                      /\ r.ldev <= Tol /\ r.xdev <= Tol
+(* definiteness: 1 positive definite, -1 indefinite (first non-positive pivot negative), 0 the first   *)
+(* non-positive pivot is exactly zero - with an irrational factor rounding decides whether the code can *)
+(* notice, both answers are accepted there (the enumerated cases of MC_BSplineFit, whose arithmetic is   *)
+(* exact in floating point, are strict)                                                                  *)
 CholWhy(r) ==
   LET A == TLCEval(Unband(r.ab, r.n, r.bw))
-      pd == IF r.finite THEN IsPD(A, r.n) ELSE FALSE
+      df == IF ~r.finite THEN -1 ELSE IF r.intmat THEN Definiteness(A, r.n) ELSE (IF r.pdclaim THEN 1 ELSE -1)
   IN IF r.exc # "" THEN "exception"
-     ELSE IF ~PaddingZero(r.ab, r.n, r.bw) THEN "harness: input not in padded band form"
-     ELSE IF r.okobs # pd THEN (IF pd THEN "positive definite matrix refused" ELSE "not positive definite / non-finite matrix factored")
+     ELSE IF r.intmat /\ ~PaddingZero(r.ab, r.n, r.bw) THEN "harness: input not in padded band form"
+     ELSE IF df = 1 /\ ~r.okobs THEN "positive definite matrix refused"
+     ELSE IF df = -1 /\ r.okobs THEN "not positive definite / non-finite matrix factored"
      ELSE IF ~r.okobs THEN (IF r.same THEN "" ELSE "second item is not the input")
+     ELSE IF df = 0 THEN ""
      ELSE IF r.exact THEN (IF CholExactOK(r, A) THEN "" ELSE "factor or solution wrong")
      ELSE IF r.resL <= Tol /\ r.resX <= Tol THEN "" ELSE "residual above tolerance"
 
@@ -56,7 +63,17 @@ LawWhy(r) ==
      ELSE IF r.law = "zw" /\ ~(ToSet(r.altered) \subseteq ToSet(r.zeroidx)) THEN "harness: altered a weighted point"
      ELSE IF r.disc <= r.tol THEN "" ELSE "discrepancy above tolerance"
 
-WhyOf(r) == IF r.kind = "chol" THEN CholWhy(r) ELSE LawWhy(r)
+(* a history whose knots cannot be abstracted to a support problem (coincident knots: all good data at *)
+(* one abscissa): only what the statement demands of every fit is judged - documented status, finite   *)
+(* coefficients, no exception, a mask that shrinks exactly when the status is -1                       *)
+EventOK(e) == IF e.a = "fit" THEN /\ e.st \in Statuses /\ e.finite /\ ToSet(e.after) \subseteq ToSet(e.mask)
+                                  /\ (e.st = -1) <=> (ToSet(e.after) # ToSet(e.mask))
+              ELSE IF e.a = "return" THEN e.finite
+              ELSE e.a = "refuse"
+RunWhy(r) == IF \E k \in 1..Len(r.events) : r.events[k].a = "raise" THEN "exception"
+             ELSE IF \E k \in 1..Len(r.events) : ~EventOK(r.events[k]) THEN "event not admissible" ELSE ""
+
+WhyOf(r) == IF r.kind = "chol" THEN CholWhy(r) ELSE IF r.kind = "run" THEN RunWhy(r) ELSE LawWhy(r)
 RInit == /\ i \in 1..Len(Input)
          /\ why = WhyOf(Input[i])
          /\ ok = (why = "")
